@@ -167,8 +167,8 @@ Proof.
     rewrite Forall_forall in Hv; auto.
 Qed.
 
-(* when is tau strictly positive: Ksat >= 1 mm/day gives tau >= 0.09 (every built-in soil has Ksat >= 2) *)
-Lemma tau_of_pos ks : 1 <= ks -> 9 / 100 <= tau_of ks.
+(* when is tau strictly positive: Ksat >= 1 mm/day gives tau >= 0.08 (every built-in soil has Ksat >= 2) *)
+Lemma tau_of_pos ks : 1 <= ks -> 8 / 100 <= tau_of ks.
 Proof.
   intros H. unfold tau_of. rnum.
   assert (Hp : 1 <= Rpow ks (35 / 100)).
@@ -176,8 +176,366 @@ Proof.
     apply exp_ge_1. apply Rmult_le_pos; [lra|]. rewrite <- ln_1. destruct H as [H|H].
     - left; apply ln_increasing; lra.
     - rewrite <- H; lra. }
-  assert (Hr : 9 / 100 <= Rround 2 (866 / 10000 * Rpow ks (35 / 100))).
-  { replace (9 / 100) with (Rround 2 (IZR 9 / 100)) by (rewrite Rround2_cm; lra).
+  assert (Hr : 8 / 100 <= Rround 2 (866 / 10000 * Rpow ks (35 / 100))).
+  { replace (8 / 100) with (Rround 2 (IZR 8 / 100)) by (rewrite Rround2_cm; lra).
     apply Rround_mono. nra. }
   rcases; lra.
+Qed.
+
+(* ============================================================================================
+   1a. numpy's pairwise summation is a sum *)
+Fixpoint Rsum (l : list R) : R := match l with [] => 0 | x :: r => x + Rsum r end.
+
+Lemma Rsum_app a b : Rsum (a ++ b) = Rsum a + Rsum b.
+Proof. induction a as [|x a IH]; cbn; [lra | rewrite IH; lra]. Qed.
+
+Lemma fold_plus_Rsum l a : fold_left (fun a x : R => nadd num_ops a x) l a = a + Rsum l.
+Proof. revert a; induction l as [|x l IH]; intros a; cbn; [lra|]. rewrite IH. rnum. lra. Qed.
+
+Lemma Rsum_firstn_skipn n l : Rsum (firstn n l) + Rsum (skipn n l) = Rsum l.
+Proof. rewrite <- Rsum_app, firstn_skipn. reflexivity. Qed.
+
+Lemma zip_add_sum (r a : list R) : (length a <= length r)%nat ->
+  Rsum (zip_add r a) = Rsum r + Rsum a /\ length (zip_add r a) = length r.
+Proof.
+  revert a; induction r as [|x r IH]; intros [|y a] H; cbn in *; try (split; [lra|reflexivity]); try lia.
+  destruct (IH a) as [H1 H2]; [lia|]. rewrite H1, H2. rnum. split; [lra|reflexivity].
+Qed.
+
+Lemma pw_loop_sum nb : forall r rest r' rest', length r = 8%nat -> pw_loop nb r rest = (r', rest') ->
+  Rsum r' + Rsum rest' = Rsum r + Rsum rest /\ length r' = 8%nat.
+Proof.
+  induction nb as [|nb IH]; intros r rest r' rest' Hl; cbn [pw_loop].
+  - intros E; inv E. split; [reflexivity|exact Hl].
+  - intros E. destruct (zip_add_sum r (firstn 8 rest)) as [H1 H2]; [rewrite Hl; apply firstn_le_length|].
+    apply IH in E; [|congruence]. destruct E as [E1 E2]. split; [|exact E2].
+    rewrite E1, H1. pose proof (Rsum_firstn_skipn 8 rest). lra.
+Qed.
+
+Lemma pw_block_sum (l : list R) : (8 <= length l)%nat -> pw_block l = Rsum l.
+Proof.
+  intros H. unfold pw_block.
+  destruct (pw_loop _ _ _) as [r rest] eqn:E.
+  apply pw_loop_sum in E; [|apply firstn_length_le; exact H]. destruct E as [E1 E2].
+  pose proof (Rsum_firstn_skipn 8 l) as Hs.
+  do 9 (destruct r as [|? r]; try discriminate E2).
+  rewrite fold_plus_Rsum. cbn [Rsum] in E1. rnum. lra.
+Qed.
+
+Lemma pw_sum_fuel_sum fuel : forall l : list R, (length l <= fuel)%nat -> pw_sum_fuel fuel l = Rsum l.
+Proof.
+  induction fuel as [|f IH]; intros l Hl; cbn [pw_sum_fuel].
+  - destruct l; [|cbn in Hl; lia]. reflexivity.
+  - destruct (Nat.ltb_spec (length l) 8).
+    + rewrite fold_plus_Rsum. rnum. lra.
+    + destruct (Nat.leb_spec (length l) 128).
+      * apply pw_block_sum; assumption.
+      * set (n2 := (Nat.div (length l) 2 - Nat.modulo (Nat.div (length l) 2) 8)%nat).
+        assert (Hd : (Nat.div (length l) 2 < length l)%nat) by (apply Nat.div_lt; lia).
+        assert (Hn2 : (n2 <= Nat.div (length l) 2)%nat) by (unfold n2; lia).
+        assert (Hpos : (0 < n2)%nat).
+        { unfold n2. pose proof (Nat.mod_upper_bound (Nat.div (length l) 2) 8).
+          assert (64 <= Nat.div (length l) 2)%nat by (apply Nat.div_le_lower_bound; lia). lia. }
+        rewrite !IH.
+        -- rnum. apply Rsum_firstn_skipn.
+        -- rewrite skipn_length. lia.
+        -- rewrite firstn_length. lia.
+Qed.
+
+Lemma pw_sum_sum (l : list R) : pw_sum l = Rsum l.
+Proof. apply pw_sum_fuel_sum. lia. Qed.
+
+(* ============================================================================================
+   1b. geometry.  The code rounds running sums to centimetres (np.cumsum(dz).round(2)); when every thickness is a
+   whole number of centimetres the rounding is exact and the bottoms are exactly the running sums. *)
+Definition cm (d : R) : Prop := exists k : Z, (0 < k)%Z /\ d = IZR k / 100.
+Definition cm0 (d : R) : Prop := exists k : Z, d = IZR k / 100.
+
+Lemma cm_pos d : cm d -> 0 < d.
+Proof. intros (k & Hk & ->). apply IZR_lt in Hk. lra. Qed.
+Lemma cm_round d : cm d -> Rround 2 d = d.
+Proof. intros (k & _ & ->). apply Rround2_cm. Qed.
+Lemma cm0_round d : cm0 d -> Rround 2 d = d.
+Proof. intros (k & ->). apply Rround2_cm. Qed.
+Lemma cm0_plus a d : cm0 a -> cm d -> cm0 (a + d).
+Proof. intros (m & ->) (k & _ & ->). exists (m + k)%Z. rewrite plus_IZR. lra. Qed.
+Lemma cm0_0 : cm0 0.
+Proof. exists 0%Z. lra. Qed.
+
+(* rows starting at depth [top]: bottoms are the running sum, zBot/z_top/zMid agree with them *)
+Fixpoint geom_ok (top : R) (rows : list RowR) : Prop :=
+  match rows with
+  | [] => True
+  | r :: rest =>
+    r_dzsum r = top + r_dz r /\ r_zbot r = r_dzsum r /\ r_ztop r = r_zbot r - r_dz r /\
+    r_zmid r = (r_ztop r + r_zbot r) / 2 /\ geom_ok (r_dzsum r) rest
+  end.
+
+Definition geo (r : RowR) := (r_dz r, r_dzsum r, r_zbot r, r_ztop r, r_zmid r).
+
+Lemma geo_eq r r' : geo r' = geo r ->
+  r_dz r' = r_dz r /\ r_dzsum r' = r_dzsum r /\ r_zbot r' = r_zbot r /\ r_ztop r' = r_ztop r /\ r_zmid r' = r_zmid r.
+Proof. unfold geo. intros H. inversion H. auto. Qed.
+
+Lemma geom_ok_geo rows : forall rows' top, map geo rows' = map geo rows -> geom_ok top rows -> geom_ok top rows'.
+Proof.
+  induction rows as [|r rows IH]; intros [|r' rows'] top E H; try discriminate; [exact I|].
+  cbn [map] in E. assert (E1 : geo r' = geo r) by congruence. assert (E2 : map geo rows' = map geo rows) by congruence.
+  apply geo_eq in E1. destruct E1 as (e1 & e2 & e3 & e4 & e5).
+  cbn [geom_ok] in *. destruct H as (A & B & C & D & G).
+  rewrite e1, e2, e3, e4, e5. repeat split; auto.
+Qed.
+
+Lemma create_rows_geom dz : forall acc, cm0 acc -> Forall cm dz ->
+  geom_ok acc (create_rows acc dz) /\ map r_dz (create_rows acc dz) = dz.
+Proof.
+  induction dz as [|d dz IH]; intros acc Ha H; cbn; [split; [exact I|reflexivity]|].
+  inv H. rnum. pose proof (cm0_plus _ _ Ha H2) as Hs. rewrite (cm0_round _ Hs).
+  destruct (IH (acc + d) Hs H3) as [G M]. repeat split; auto. f_equal; exact M.
+Qed.
+
+Lemma map_cond_geo (test : RowR -> bool) a rows :
+  map geo (map (fun r => if test r then set_asg r (Some a) else r) rows) = map geo rows.
+Proof. rewrite map_map. apply map_ext. intros r. destruct (test r); reflexivity. Qed.
+
+Lemma add_layer_geo rows L rows' : add_layer rows L = Some rows' -> map geo rows' = map geo rows.
+Proof.
+  unfold add_layer. destruct (nltb _ _ _); [discriminate|]. destruct (_ =? 1)%Z.
+  - intros E; inv E. apply map_cond_geo.
+  - destruct (last_dzsum _ _); [|discriminate]. intros E; inv E. apply map_cond_geo.
+Qed.
+
+Lemma add_layers_geo Ls : forall rows rows', add_layers rows Ls = Some rows' -> map geo rows' = map geo rows.
+Proof.
+  induction Ls as [|L Ls IH]; intros rows rows'; cbn.
+  - intros E; inv E; reflexivity.
+  - destruct (add_layer rows L) as [r1|] eqn:E1; [|discriminate]. intros E.
+    etransitivity; [eapply IH; exact E | eapply add_layer_geo; exact E1].
+Qed.
+
+Lemma ffill_rows_geo rows : forall last, map geo (ffill_rows last rows) = map geo rows.
+Proof. induction rows as [|r rows IH]; intros last; cbn; [reflexivity|]. f_equal. apply IH. Qed.
+
+Lemma set_dz_dzsum_id (r : RowR) : set_dz_dzsum r (r_dz r) (r_dzsum r) = r.
+Proof. destruct r; reflexivity. Qed.
+
+Lemma redz_rows_id rows : forall acc, cm0 acc -> Forall cm (map r_dz rows) -> geom_ok acc rows ->
+  redz_rows acc rows = rows.
+Proof.
+  induction rows as [|r rows IH]; intros acc Ha Hc G; cbn; [reflexivity|].
+  cbn in Hc. inv Hc. destruct G as (A & B & C & D & G). rnum.
+  rewrite (cm_round _ H1). pose proof (cm0_plus _ _ Ha H1) as Hs. rewrite (cm0_round _ Hs), <- A.
+  rewrite set_dz_dzsum_id. f_equal. rewrite A. apply IH; auto. rewrite <- A; exact G.
+Qed.
+
+Lemma Rsum_cm0 dz : Forall cm dz -> cm0 (Rsum dz).
+Proof.
+  induction 1 as [|d dz Hd _ IH]; cbn; [apply cm0_0|].
+  rewrite Rplus_comm. apply cm0_plus; assumption.
+Qed.
+
+(* THEOREM 1, geometry part *)
+Theorem build_wf_geometry dz layers rows zs :
+  Forall cm dz -> build_rows dz layers = Some (rows, zs) ->
+  map r_dz rows = dz /\ geom_ok 0 rows /\ zs = Rsum dz.
+Proof.
+  intros Hc. unfold build_rows. destruct (add_layers _ _) as [r1|] eqn:E; [|discriminate].
+  unfold fill_nan. destruct (existsb _ _); [discriminate|]. intros H; inv H.
+  destruct (create_rows_geom dz 0 cm0_0 Hc) as [G M].
+  assert (G1 : geom_ok 0 (ffill_rows None r1)).
+  { eapply geom_ok_geo; [|exact G]. rewrite ffill_rows_geo. eapply add_layers_geo; exact E. }
+  assert (M1 : map r_dz (ffill_rows None r1) = dz).
+  { rewrite <- M. pose proof (add_layers_geo _ _ _ E) as Hg. rewrite <- (ffill_rows_geo r1 None) in Hg.
+    apply (f_equal (map (fun g : R * R * R * R * R => fst (fst (fst (fst g)))))) in Hg.
+    rewrite !map_map in Hg. exact Hg. }
+  rnum. rewrite redz_rows_id; auto; [|exact cm0_0| rewrite M1; exact Hc].
+  rewrite M1, pw_sum_sum. repeat split; auto. apply cm0_round. apply Rsum_cm0; exact Hc.
+Qed.
+
+(* ============================================================================================
+   1c. layers: the profile is a concatenation of non-empty blocks numbered 1, 2, ..., n from the surface;
+   all rows of a block carry the same assignment (the layer's properties). *)
+Definition assigned_as (a : AsgR) (r : RowR) : Prop := r_asg r = Some a.
+Definition unassigned (r : RowR) : Prop := r_asg r = None.
+
+Inductive blocks (P : AsgR -> Prop) : Z -> Z -> list RowR -> Prop :=
+| blocks_nil lo : blocks P lo lo []
+| blocks_cons lo hi a B A :
+    B <> [] -> Forall (assigned_as a) B -> a_layer a = (lo + 1)%Z -> P a ->
+    blocks P (lo + 1) hi A -> blocks P lo hi (B ++ A).
+
+Lemma blocks_range P lo hi A : blocks P lo hi A -> (lo <= hi)%Z /\ (lo = hi -> A = []) /\ (A = [] -> lo = hi).
+Proof.
+  induction 1 as [lo|lo hi a B A HB HF Ha HP HA (I1 & I2 & I3)].
+  - repeat split; auto; lia.
+  - repeat split; try lia.
+    intros E. apply app_eq_nil in E. destruct E; contradiction.
+Qed.
+
+Lemma blocks_assigned P lo hi A : blocks P lo hi A -> Forall (fun r => exists a, r_asg r = Some a) A.
+Proof.
+  induction 1 as [lo|lo hi a B A HB HF Ha HP HA IH]; [constructor|].
+  apply Forall_app; split; [|exact IH]. eapply Forall_impl; [|exact HF]. intros r Hr; exists a; exact Hr.
+Qed.
+
+Lemma blocks_snoc P lo hi A : blocks P lo hi A -> forall a B,
+  B <> [] -> Forall (assigned_as a) B -> a_layer a = (hi + 1)%Z -> P a -> blocks P lo (hi + 1) (A ++ B).
+Proof.
+  induction 1 as [lo|lo hi a0 B0 A HB0 HF0 Ha0 HP0 HA IH]; intros a B HB HF Ha HP.
+  - cbn. rewrite <- (app_nil_r B). eapply blocks_cons; eauto. constructor.
+  - rewrite <- app_assoc. eapply blocks_cons; eauto.
+Qed.
+
+(* extending the last block *)
+Lemma blocks_extend P lo hi A : blocks P lo hi A -> A <> [] -> forall l,
+  exists a, fold_left (fun acc (r : RowR) => match r_asg r with Some a => Some a | None => acc end) A l = Some a /\
+            forall B, Forall (assigned_as a) B -> blocks P lo hi (A ++ B).
+Proof.
+  induction 1 as [lo|lo hi a0 B0 A HB0 HF0 Ha0 HP0 HA IH]; intros HN l; [contradiction|].
+  rewrite fold_left_app.
+  assert (HB : forall l, fold_left (fun acc (r : RowR) => match r_asg r with Some a => Some a | None => acc end) B0 l
+                         = Some a0).
+  { clear -HB0 HF0. induction B0 as [|r B0 IHB]; intros l; [contradiction|]. inv HF0. cbn. rewrite H1.
+    destruct B0 as [|r' B0]; [reflexivity|]. apply IHB; [discriminate|assumption]. }
+  rewrite HB. destruct A as [|r A].
+  - exists a0. split; [reflexivity|]. intros B HFB. pose proof (blocks_range _ _ _ _ HA) as (_ & _ & E).
+    specialize (E eq_refl). subst hi. rewrite app_nil_r. rewrite <- (app_nil_r (B0 ++ B)).
+    apply (blocks_cons P lo (lo + 1) a0 (B0 ++ B) []).
+    + intros E. apply app_eq_nil in E. destruct E; contradiction.
+    + apply Forall_app; split; assumption.
+    + exact Ha0.
+    + exact HP0.
+    + constructor.
+  - destruct (IH ltac:(discriminate) (Some a0)) as (a & E & HE). exists a. split; [exact E|].
+    intros B HFB. rewrite <- app_assoc. eapply blocks_cons; eauto.
+Qed.
+
+Lemma blocks_asg P rows : forall lo hi rows', blocks P lo hi rows -> map r_asg rows' = map r_asg rows -> blocks P lo hi rows'.
+Proof.
+  intros lo hi rows' H. revert rows'. induction H as [lo|lo hi a B A HB HF Ha HP HA IH]; intros rows' E.
+  - destruct rows'; [constructor|discriminate].
+  - rewrite map_app in E. apply map_eq_app in E. destruct E as (B' & A' & -> & EB & EA).
+    eapply blocks_cons; eauto.
+    + intros ->. destruct B; [contradiction|discriminate].
+    + clear -HF EB. revert B' EB. induction B as [|r B IHB]; intros [|r' B'] EB; try discriminate; [constructor|].
+      inv HF. cbn in EB. inv EB. constructor; [unfold assigned_as in *; congruence|apply IHB; auto].
+Qed.
+
+Lemma max_layer_fold P lo hi A : blocks P lo hi A ->
+  fold_left (fun m (r : RowR) => match r_asg r with Some a => Z.max m (a_layer a) | None => m end) A lo = hi.
+Proof.
+  induction 1 as [lo|lo hi a B A HB HF Ha HP HA IH]; [reflexivity|].
+  rewrite fold_left_app.
+  assert (E : forall m, (lo <= m <= lo + 1)%Z ->
+     fold_left (fun m (r : RowR) => match r_asg r with Some a => Z.max m (a_layer a) | None => m end) B m = (lo + 1)%Z).
+  { clear -HB HF Ha. induction B as [|r B IHB]; intros m Hm; [contradiction|]. inv HF. cbn. rewrite H1.
+    destruct B as [|r' B]; [cbn; lia|]. apply IHB; [discriminate|assumption|lia]. }
+  rewrite E by lia. exact IH.
+Qed.
+
+Lemma fold_unassigned_id {T} (g : T -> RowR -> T) U : Forall unassigned U ->
+  (forall m r, unassigned r -> g m r = m) -> forall m, fold_left g U m = m.
+Proof. intros HU Hg. induction HU as [|r U Hr _ IH]; intros m; cbn; [reflexivity|]. rewrite Hg by assumption. apply IH. Qed.
+
+Definition shape (P : AsgR -> Prop) (hi : Z) (rows : list RowR) : Prop :=
+  exists A U, rows = A ++ U /\ blocks P 0 hi A /\ Forall unassigned U.
+
+Lemma shape_max_layer P hi rows : shape P hi rows -> max_layer rows = hi.
+Proof.
+  intros (A & U & -> & HA & HU). unfold max_layer. rewrite fold_left_app.
+  rewrite (max_layer_fold _ _ _ _ HA). apply fold_unassigned_id; [exact HU|].
+  intros m r Hr. unfold unassigned in Hr. rewrite Hr. reflexivity.
+Qed.
+
+Definition sorted (rows : list RowR) : Prop := StronglySorted Rle (map r_dzsum rows).
+
+Lemma sorted_geo rows rows' : map geo rows' = map geo rows -> sorted rows -> sorted rows'.
+Proof.
+  intros E. unfold sorted.
+  replace (map r_dzsum rows') with (map r_dzsum rows); [auto|].
+  apply (f_equal (map (fun g : R * R * R * R * R => snd (fst (fst (fst g)))))) in E. rewrite !map_map in E.
+  symmetry; exact E.
+Qed.
+
+Lemma sorted_app_r A U : sorted (A ++ U) -> sorted U.
+Proof.
+  unfold sorted. rewrite map_app. induction (map r_dzsum A) as [|x l IH]; cbn; [auto|].
+  intros H. inv H. auto.
+Qed.
+
+Lemma create_rows_sorted dz : forall acc, Forall (fun d => 0 <= d) dz ->
+  sorted (create_rows acc dz) /\ Forall (fun r => Rround 2 acc <= r_dzsum r) (create_rows acc dz).
+Proof.
+  induction dz as [|d dz IH]; intros acc H; cbn; [split; constructor|].
+  inv H. rnum. destruct (IH (acc + d) H3) as [S1 S2].
+  assert (Hm : Rround 2 acc <= Rround 2 (acc + d)) by (apply Rround_mono; lra).
+  split.
+  - unfold sorted. cbn. constructor; [exact S1|].
+    rewrite Forall_map. eapply Forall_impl; [|exact S2]. intros r Hr; exact Hr.
+  - constructor; [cbn; exact Hm|]. eapply Forall_impl; [|exact S2]. intros r Hr; cbn in Hr; lra.
+Qed.
+
+(* a test that is downward closed in dzsum selects a prefix of a sorted list of unassigned rows *)
+Lemma map_prefix (test : RowR -> bool) a U :
+  sorted U -> Forall unassigned U ->
+  (forall r1 r2, unassigned r1 -> r_dzsum r1 <= r_dzsum r2 -> test r2 = true -> test r1 = true) ->
+  exists U1 U2, U = U1 ++ U2 /\ Forall unassigned U2 /\
+    map (fun r => if test r then set_asg r (Some a) else r) U = map (fun r => set_asg r (Some a)) U1 ++ U2.
+Proof.
+  intros HS HU Hm. induction U as [|r U IH].
+  - exists [], []. repeat split; constructor.
+  - inv HU. unfold sorted in HS. cbn in HS. inv HS. destruct (test r) eqn:Et.
+    + destruct (IH H3 H2) as (U1 & U2 & -> & HU2 & E). exists (r :: U1), U2. repeat split; auto.
+      cbn. rewrite Et. f_equal. exact E.
+    + exists [], (r :: U). repeat split; [constructor; auto|]. cbn. rewrite Et. f_equal.
+      rewrite <- (map_id U) at 2. apply map_ext_in. intros r' Hr'.
+      destruct (test r') eqn:Et'; [|reflexivity].
+      rewrite Forall_map in H4. rewrite Forall_forall in H4. specialize (H4 _ Hr').
+      rewrite (Hm r r' H1 H4 Et') in Et. discriminate.
+Qed.
+
+Lemma map_id_assigned (test : RowR -> bool) a A :
+  Forall (fun r => test r = false) A -> map (fun r => if test r then set_asg r (Some a) else r) A = A.
+Proof.
+  intros H. rewrite <- (map_id A) at 2. apply map_ext_in. intros r Hr. rewrite Forall_forall in H. rewrite (H r Hr). reflexivity.
+Qed.
+
+Lemma shape_after_mask P hi A U (test : RowR -> bool) a :
+  blocks P 0 hi A -> Forall unassigned U -> sorted U ->
+  Forall (fun r => test r = false) A ->
+  (forall r1 r2, unassigned r1 -> r_dzsum r1 <= r_dzsum r2 -> test r2 = true -> test r1 = true) ->
+  a_layer a = (hi + 1)%Z -> P a ->
+  let rows' := map (fun r => if test r then set_asg r (Some a) else r) (A ++ U) in
+  shape P hi rows' \/ shape P (hi + 1) rows'.
+Proof.
+  intros HA HU HS HtA Hm Ha HP rows'. unfold rows'. rewrite map_app, map_id_assigned by exact HtA.
+  destruct (map_prefix test a U HS HU Hm) as (U1 & U2 & -> & HU2 & E). rewrite E.
+  destruct U1 as [|r1 U1].
+  - left. exists A, U2. repeat split; auto.
+  - right. exists (A ++ map (fun r => set_asg r (Some a)) (r1 :: U1)), U2. rewrite app_assoc. repeat split; auto.
+    eapply blocks_snoc; eauto; [discriminate|].
+    rewrite Forall_map. apply Forall_forall. intros r _. reflexivity.
+Qed.
+
+Lemma add_layer_shape P hi rows L rows' :
+  sorted rows -> shape P hi rows -> (forall k, P (mk_asg k L)) -> add_layer rows L = Some rows' ->
+  shape P hi rows' \/ shape P (hi + 1) rows'.
+Proof.
+  intros HS Hsh HP. pose proof (shape_max_layer _ _ _ Hsh) as Hmax. destruct Hsh as (A & U & -> & HA & HU).
+  unfold add_layer. rewrite Hmax. clear Hmax. destruct (nltb _ _ _); [discriminate|].
+  destruct (hi + 1 =? 1)%Z eqn:E1.
+  - apply Z.eqb_eq in E1. assert (hi = 0%Z) by lia. subst hi. intros E; inv E.
+    pose proof (blocks_range _ _ _ _ HA) as (_ & HA0 & _). specialize (HA0 eq_refl). subst A.
+    apply shape_after_mask; [exact HA | exact HU | eapply sorted_app_r; exact HS | constructor | | reflexivity | apply HP].
+    intros r1 r2 _ H12. rnum. destruct (Rleb_spec (Rround 2 (r_dzsum r2)) (Rround 2 (ls_thick L))); [|discriminate].
+    intros _. apply Rleb_true. pose proof (Rround_mono 2 _ _ H12). lra.
+  - destruct (last_dzsum _ _) as [last|]; [|discriminate]. intros E; inv E.
+    apply shape_after_mask; [exact HA | exact HU | | | | reflexivity | apply HP].
+    + eapply sorted_app_r; exact HS.
+    + eapply Forall_impl; [|apply (blocks_assigned _ _ _ _ HA)]. intros r (a & Hr).
+      unfold is_unassigned. rewrite Hr. apply andb_false_r.
+    + intros r1 r2 Hu H12 Ht. apply andb_true_iff in Ht. destruct Ht as [Ht1 Ht2]. apply andb_true_iff.
+      split.
+      * revert Ht1. rnum. destruct (Rleb_spec (r_dzsum r2) (ls_thick L + last)); [|discriminate]. intros _. apply Rleb_true. lra.
+      * unfold is_unassigned. unfold unassigned in Hu. rewrite Hu. reflexivity.
 Qed.
